@@ -28,6 +28,10 @@ pub fn generate(prop: &str, tier: &str, seed: u64, out: &str, shards: usize, his
             }
         }
         "C10" | "C11" => crate::checks2::gen_shapes(&asm, &mut mach, &mut rng, &mut sh, histories.expect("shape file"), thorough),
+        "C15" => {
+            crate::checks2::gen_fuzz(&mut sh, seed, if thorough { 200_000 } else { 12_000 }, out);
+            crate::checks3::gen_c15(&mut rng, &mut sh, out, thorough);
+        }
         "C19" => {
             crate::checks2::gen_c19(&asm, &mut rng, &mut sh, histories.expect("schedule file"), thorough);
             crate::checks3::gen_repeats(&mut rng, &mut sh, out, thorough);
